@@ -333,6 +333,19 @@ def max_bound(text: str) -> int:
     return max((int(m) for m in _BOUND_RE.findall(text) if len(m) < 4000), default=0)
 
 
+def bound_product(text: str) -> int:
+    """product of the numbers written in the text (an upper bound of how often stacked repetition bounds e{a}{b,c}{d,} make the
+    unroll pass copy the innermost operand), capped"""
+    p = 1
+    for m in re.findall(r"[0-9]+", text):
+        if len(m) < 4000:
+            p *= max(1, int(m))
+        if p > 10**12:
+            break
+    # e+ becomes e ~ e*: every stacked + doubles the operand
+    return p * 2 ** min(40, text.count("+"))
+
+
 def check_total(text: str, optimized: bool):
     """None if from_grammar(text) behaves as C11 demands, else a dict describing how it does not"""
     im = impl()
@@ -392,13 +405,14 @@ KNOWN = [
     {
         "key": "huge-repetition-bound",
         "property": "C11",
-        "what": "key=huge-repetition-bound with the default optimizer the unroll pass copies the operand of e{n} n times, so a bound "
-                "of 10**8 or more (up to the u32 limit) exhausts memory (MemoryError escapes from Parser.from_grammar) or does "
-                "not finish in reasonable time",
+        "what": "key=huge-repetition-bound with the default optimizer the unroll pass copies the operand of e{n} n times (stacked "
+                "bounds e{a}{b} multiply, every stacked + doubles), so a bound or a product of bounds of 10**8 or more (up to the u32 limit) exhausts memory "
+                "(MemoryError escapes from Parser.from_grammar) or does not finish in reasonable time; from about 10**5 copies on "
+                "loading takes longer than the 20 s the check waits for one text",
         "witness": 'a = { "x"{4000000000} }',
         "optimized": True,
         "match": lambda text, bad: bad["class"] in ("exception:MemoryError", "exception:Timeout") and bad.get("optimizer", "default") == "default"
-        and max_bound(text) >= 100000,
+        and (max_bound(text) >= 100000 or bound_product(text) >= 100000),
     },
     {
         "key": "block-comment-peg-fallback",
@@ -419,8 +433,23 @@ KNOWN = [
 ]
 
 
+def _open_keys(prop: str) -> set:
+    """keys that known_findings.txt lists as open (`finding:` lines) for this property; the file is only ever read"""
+    fp = os.path.join(os.path.dirname(os.path.dirname(os.path.abspath(__file__))), "known_findings.txt")
+    keys = set()
+    if os.path.exists(fp):
+        with open(fp, encoding="utf-8") as f:
+            for ln in f:
+                m = re.match(r"finding:\s+property=(\S+)\s+key=(\S+)", ln)
+                if m and m.group(1) == prop:
+                    keys.add(m.group(2))
+    return keys
+
+
 def known_for(prop: str):
-    return [k for k in KNOWN if k["property"] == prop]
+    """the findings of the table that the committed file lists as open: a finding the file does not list suppresses nothing"""
+    keys = _open_keys(prop)
+    return [k for k in KNOWN if k["property"] == prop and k["key"] in keys]
 
 
 # ---------------------------------------------------------------- the oracle
@@ -1024,6 +1053,14 @@ def replay(out: Outcome, payload: dict) -> None:
         if not returns_within(text, payload.get("optimizer") == "default"):
             out.violation({**{k: payload[k] for k in ("kind", "text", "text_repr", "optimizer", "class", "observed", "expected") if k in payload},
                            "command": f"./check {out.prop} --replay <this file>"})
+    elif kind == "totality-depth":
+        again = [x for x in depth_sweep(payload["depth_shape"], payload.get("optimizer") == "default")["bads"]
+                 if not any(k["match"](uncps(x["text"]), x) for k in known_for("C11") if "match" in k)]
+        if again:
+            x = again[0]
+            out.violation({"kind": "totality-depth", "depth_shape": x["depth_shape"], "depth": x["depth"], "text": x["text"],
+                           "text_repr": repr(uncps(x["text"]))[:200], "optimizer": x["optimizer"], "class": x["class"],
+                           "observed": x["observed"], "expected": x["expected"], "command": f"./check {out.prop} --replay <this file>"})
     elif kind == "totality":
         bad = check_total(text, payload.get("optimizer") == "default")
         if bad and not any(k["match"](text, bad) for k in known_for("C11") if "match" in k):
@@ -1101,6 +1138,71 @@ def returns_within(text: str, optimized: bool, limit_s: float = 25.0) -> bool:
     return bool(ok)
 
 
+# ---- nesting depth swept across the interpreter's recursion budget (C11)
+# Where loading stops succeeding depends on the shape, on the optimizer and on how deep the caller's own stack is; an exception
+# that escapes only when the overflow happens inside one particular frame shows at one or two depths only.  So the first depth
+# that does not load is located by bisection and every depth around it is loaded.
+DEPTH_SHAPES = {
+    "postfix ?": lambda n: 'a = { "x"' + "?" * n + " }",
+    "postfix *": lambda n: "a = { b" + "*" * n + ' }\nb = { "x" }',
+    "postfix +": lambda n: 'a = { "x"' + "+" * n + " }",
+    "postfix {1}": lambda n: 'a = { "x"' + "{1}" * n + " }",
+    "postfix {,2} and ?": lambda n: 'a = { "x"' + "{,2}?" * (n // 2) + "?" * (n % 2) + " }",
+    "prefix !": lambda n: "a = { " + "!" * n + '"x" }',
+    "prefix &": lambda n: "a = { " + "&" * n + "b }\nb = _{ ANY }",
+    "prefix and postfix": lambda n: "a = { " + "!" * (n // 2) + '"x"' + "?" * (n - n // 2) + " }",
+    "parentheses": lambda n: "a = { " + "(" * n + '"x"' + ")" * n + " }",
+    "PUSH": lambda n: "a = { " + "PUSH(" * n + '"x"' + ")" * n + " }",
+    "nested sequences": lambda n: "a = { " + '("x" ~ ' * n + '"y"' + ")" * n + " }",
+    "nested choices": lambda n: "a = { " + '("x" | ' * n + '"y"' + ")" * n + " }",
+    "nested literal choices under @": lambda n: "a = @{ " + '("x" | "y" ~ ' * n + '"z"' + ")" * n + " }",
+    "tagged groups": lambda n: "a = { " + "#t = (" * n + "b" + ")" * n + ' }\nb = { "x" }',
+    "silent rule chain": lambda n: "\n".join(f"r{i} = _{{ r{i + 1} }}" for i in range(n)) + f'\nr{n} = {{ "x" }}',
+    "skip shape": lambda n: "a = @{ " + "(" * n + '!"x" ~ ANY' + ")" * n + "* }",
+}
+DEPTH_MAX = 2600
+DEPTH_WINDOW = 24
+
+
+def depth_sweep(shape: str, optimized: bool) -> dict:
+    """{"first": n0, "loads": k, "bads": [...]}: n0 = the first depth whose text does not load; every depth within DEPTH_WINDOW
+    of it is checked for totality"""
+    mk = DEPTH_SHAPES[shape]
+    im = impl()
+    loads = 0
+
+    def loads_ok(n):
+        nonlocal loads
+        loads += 1
+        return im.load(mk(n), optimized)[0] == "ok"
+
+    lo, hi = 1, DEPTH_MAX
+    if not loads_ok(lo):
+        lo = hi = 1
+    elif loads_ok(hi):
+        lo = hi
+    else:
+        while hi - lo > 1:
+            mid = (lo + hi) // 2
+            if loads_ok(mid):
+                lo = mid
+            else:
+                hi = mid
+    bads = []
+    for n in range(max(1, hi - DEPTH_WINDOW), hi + DEPTH_WINDOW + 1):
+        loads += 1
+        bad = check_total(mk(n), optimized)
+        if bad:
+            bads.append({"text": cps(mk(n)), "optimizer": "default" if optimized else "none", "depth_shape": shape, "depth": n, **bad})
+    return {"first": hi, "loads": loads, "bads": bads}
+
+
+def _depth_job(job):
+    shape, optimized = job
+    _limit()
+    return job, depth_sweep(shape, optimized)
+
+
 def _probe_job(job):
     text, optimized = job
     _limit()
@@ -1169,6 +1271,7 @@ def run(out: Outcome) -> None:
     stats = collections.Counter()
     evals = nerr = ncorr = ncorr_bad = nbad = 0
     pre_bads = []
+    depth_first: dict[str, int] = {}
     if prop == "C11":
         # the texts built to strain the front end (deep nesting, unclosed nested comments) are loaded first, one killable process
         # each: the ones that do not come back are failures at once and are kept out of the chunks
@@ -1184,7 +1287,19 @@ def run(out: Outcome) -> None:
                 t, o = res[0]
                 pre_bads.append({"text": cps(t), "class": "exception:Timeout", "optimizer": "default" if o else "none",
                                  "observed": f"Timeout: no result within {LOAD_TIMEOUT_S} s", "expected": "a Parser or a PestGrammarError"})
-        hanging = {uncps(b["text"]) for b in pre_bads}
+        # (stacked + or {,2} under the optimizer is the open finding huge-repetition-bound: e+ -> e ~ e* doubles the operand at every level)
+        for kind, res in run_chunks(_depth_job, [(sh, o) for sh in DEPTH_SHAPES for o in (False, True) if not (o and sh in ("postfix +", "postfix {,2} and ?"))], 120.0):
+            if kind == "ok":
+                (sh, o), r = res
+                stats["depth_sweep_loads"] += r["loads"]
+                depth_first[f"{sh} / {'default' if o else 'none'}"] = r["first"]
+                pre_bads += r["bads"][:4]
+            elif kind == "hung":
+                sh, o = res
+                pre_bads.append({"text": cps(DEPTH_SHAPES[sh](DEPTH_MAX)), "class": "exception:NoReturn", "optimizer": "default" if o else "none",
+                                 "observed": f"the depth sweep of shape {sh!r} did not finish within 120 s",
+                                 "expected": "a Parser or a PestGrammarError"})
+        hanging = {uncps(b["text"]) for b in pre_bads if b["class"] in ("exception:NoReturn", "exception:Timeout")}
         texts = [t for t in texts if t not in hanging]
         jobs = _chunks(texts, NCPU * 4)
         bads += pre_bads
@@ -1275,6 +1390,22 @@ def run(out: Outcome) -> None:
                            "what": "Parser.from_grammar must terminate", "command": "./check C11 --replay <this file>"})
             reported += 1
             continue
+        if prop == "C11" and b.get("depth_shape"):
+            # where the failure lies depends on the depth of the caller's stack: the sweep is repeated here, not the one text
+            again = [x for x in depth_sweep(b["depth_shape"], b["optimizer"] == "default")["bads"] if x["class"] == b["class"]]
+            if not again:
+                not_reproduced.append({"class": b["class"], "optimizer": b["optimizer"], "depth_shape": b["depth_shape"], "depth": b["depth"]})
+                continue
+            x = again[0]
+            out.violation({"kind": "totality-depth", "depth_shape": x["depth_shape"], "depth": x["depth"], "text": x["text"],
+                           "text_repr": repr(uncps(x["text"]))[:200], "optimizer": x["optimizer"], "class": x["class"],
+                           "observed": x["observed"], "expected": x["expected"], "seed": seed(),
+                           "what": "Parser.from_grammar must return a Parser or raise a PestGrammarError at every nesting depth; the depth "
+                                   "at which this one escapes moves with the caller's stack depth, so the replay sweeps the depths around "
+                                   "the first one that no longer loads",
+                           "command": "./check C11 --replay <this file>"})
+            reported += 1
+            continue
         if prop == "C11":
             optimized = b["optimizer"] == "default"
             small = shrink_text(text, c11_fails_like(b["class"], optimized))
@@ -1344,6 +1475,8 @@ def run(out: Outcome) -> None:
             "not_reproduced_on_recheck": not_reproduced,
             "correspondence_requests": ncorr,
             "correspondence_mismatches": ncorr_bad,
+            "depth_sweep": {"loads": stats.get("depth_sweep_loads", 0), "window": DEPTH_WINDOW,
+                            "first_depth_that_does_not_load": depth_first},
             "samples": samples,
         }
         out.assumptions = [
